@@ -30,7 +30,7 @@ ASSUMPTIONS = [
 BIN = sorted(tt.BINARY)
 
 
-HIST_ALPHA = {'build': 6, 'apply': 14, 'funcop': 6, 'not': 2, 'ite': 8, 'drop': 8, 'gc': 6, 'gc_roots': 2, 'swap': 3, 'sift': 1, 'reorder_to': 1, 'var': 1}
+HIST_ALPHA = {'build': 6, 'apply': 14, 'funcop': 6, 'not': 2, 'ite': 8, 'drop': 8, 'gc': 6, 'gc_roots': 2, 'swap': 3, 'sift': 1, 'reorder_to': 1, 'var': 1, 'undeclare': 2, 'declare': 1, 'add_var': 1, 'quantify': 1, 'let_compose': 1}
 
 
 def _hist_nontrivial(w):
@@ -38,7 +38,7 @@ def _hist_nontrivial(w):
 
 
 def _hist_plan(tier, seed):
-    cfgs = [dict(kind='bdd', nmax=4, init_vars=3), dict(kind='bdd', nmax=5, init_vars=4), dict(kind='autoref', nmax=4, init_vars=3)]
+    cfgs = [dict(kind='bdd', nmax=4, init_vars=3), dict(kind='bdd', nmax=5, init_vars=4), dict(kind='autoref', nmax=4, init_vars=3), dict(kind='bdd', nmax=10, init_vars=9, semantic=False), dict(kind='bdd', nmax=12, init_vars=11, semantic=False), dict(kind='autoref', nmax=10, init_vars=10, semantic=False)]
     return [dict(kind='history', seed=seed * 1000 + 500 + s, cfgs=cfgs,
                  examples=1200 if tier == 'thorough' else 200,
                  min_len=10, max_len=45)
